@@ -86,7 +86,7 @@ META = dict(
          'by decodes of valid messages (canaries sensitive to every register first) on the same, the other and new objects, compared with a '
          'FRESH PROCESS and the Lean coder model, and by comparing the registers of new / reset CoderState objects with the model\'s.',
     technique='Lean 4 theorems (induction over the stream, frame lemma) + checked model/implementation correspondence under fault enumeration',
-    note='Which length faults are *detected* is not a theorem (BUFR has no checksum): the check counts damaged-but-still-parsed '
+    note='Source tie: decoder.generate_bufr_message is re-translated from the repository into Lean on every check (harness/py2lean.py, Gen/PyDecoder.lean; the code it calls is a record of callbacks, the generator is the list of yielded values plus how it ended) and C11_src_generate_eq proves, for every byte string, every combination of info_only / continue_on_error / filter_expr and all callbacks (length.value >= 0, the table-definition calls do not raise), that it yields exactly the items of the model scan and ends as the model says (exhausted / an exception of the same class / does not terminate where the model reports an advance by 0); C12_src_resume_policy reads the continue-on-error skip (+1 in info-only mode, else + length.value of a metadata-only decode, else +1) off the translated source. Which length faults are *detected* is not a theorem (BUFR has no checksum): the check counts damaged-but-still-parsed '
          'deliveries. In the one-byte skip branch the scan searches the signature again inside the damaged message; the theorem '
          'requires its remainder to be signature-free and the check counts the streams where it is not. The data coder raises '
          'non-library errors on garbled templates / data (F15) and can spin on a garbled replication factor (F23-C12): the two '
